@@ -57,6 +57,9 @@ type Config struct {
 	ShuffleMaps   bool
 	ShuffleSelect bool
 	TraceLen      int
+	TraceTime     bool
+	StallP        float64       // probability that the scheduler stalls (lets extra time pass) when a timer fires
+	StallMax      time.Duration // upper bound of one stall
 	// Unclean is called (inside the bubble) when tasks are still alive and making progress
 	// after the root returned; the bubble could never end. It normally flushes results and
 	// exits the process.
@@ -76,6 +79,7 @@ type Result struct {
 	Tasks       int
 	Choices     int // decision points at which more than one task was parked
 	MaxParked   int
+	Stalls      int
 	Stuck       bool
 	StuckInfo   string
 	Panics      []PanicInfo
@@ -97,6 +101,8 @@ type Task struct {
 	gates    uint64
 }
 
+const maxTasks = 8192
+
 type goidEntry struct {
 	goid uint64
 	t    *Task
@@ -105,8 +111,12 @@ type goidEntry struct {
 type Sim struct {
 	cfg      Config
 	mu       sync.Mutex
-	tasks    []*Task
-	byGoid   []goidEntry
+	// fixed arrays, no append/copy: the runtime's slice helpers are race-annotated even when called from
+	// //go:norace functions, and these tables are touched from many goroutines inside hidden sections
+	tasks    [maxTasks]*Task
+	ntasks   int
+	byGoid   [maxTasks]goidEntry
+	ngoid    int
 	rngSched *Rng
 	rngTime  *Rng
 	rngMap   *Rng
@@ -125,6 +135,10 @@ type Sim struct {
 	quantum  time.Duration
 	changeAt []int
 	stopped  bool
+	exitMu   sync.Mutex
+	exits    int
+	kick     chan struct{}
+	stalls   int
 }
 
 var cur atomic.Pointer[Sim]
@@ -153,7 +167,7 @@ func (s *Sim) self() *Task {
 	id := goid()
 	s.mu.Lock()
 	var t *Task
-	for i := len(s.byGoid) - 1; i >= 0; i-- {
+	for i := s.ngoid - 1; i >= 0; i-- {
 		if s.byGoid[i].goid == id {
 			t = s.byGoid[i].t
 			break
@@ -166,25 +180,47 @@ func (s *Sim) self() *Task {
 //go:norace
 func (s *Sim) newTask(parent *Task, site string) *Task {
 	s.mu.Lock()
-	t := &Task{wake: make(chan struct{}, 1), idx: len(s.tasks)}
+	if s.ntasks >= maxTasks {
+		s.mu.Unlock()
+		panic("simrt: too many tasks in one run")
+	}
+	t := &Task{wake: make(chan struct{}, 1), idx: s.ntasks}
+	// no fmt here: its printer pool is shared memory whose synchronisation the race detector cannot see
+	// from inside the scheduler's hidden sections
 	if parent == nil {
-		t.ID = fmt.Sprintf("%d", countRoots(s.tasks))
+		t.ID = itoa(s.countRoots())
 	} else {
-		t.ID = fmt.Sprintf("%s.%d", parent.ID, parent.nchild)
+		t.ID = parent.ID + "." + itoa(parent.nchild)
 		parent.nchild++
 	}
 	t.site = site
 	t.prio = s.rngSched.Intn(1 << 20)
-	s.tasks = append(s.tasks, t)
+	s.tasks[s.ntasks] = t
+	s.ntasks++
 	s.mu.Unlock()
 	return t
 }
 
 //go:norace
-func countRoots(ts []*Task) int {
+func itoa(n int) string {
+	if n == 0 {
+		return "0"
+	}
+	var b [20]byte
+	i := len(b)
+	for n > 0 {
+		i--
+		b[i] = byte('0' + n%10)
+		n /= 10
+	}
+	return string(b[i:])
+}
+
+//go:norace
+func (s *Sim) countRoots() int {
 	n := 0
-	for _, t := range ts {
-		if !strings.Contains(t.ID, ".") {
+	for i := 0; i < s.ntasks; i++ {
+		if !strings.Contains(s.tasks[i].ID, ".") {
 			n++
 		}
 	}
@@ -195,16 +231,19 @@ func countRoots(ts []*Task) int {
 func (s *Sim) register(t *Task) {
 	id := goid()
 	s.mu.Lock()
-	s.byGoid = append(s.byGoid, goidEntry{id, t})
+	if s.ngoid < maxTasks {
+		s.byGoid[s.ngoid] = goidEntry{id, t}
+		s.ngoid++
+	}
 	s.mu.Unlock()
 }
 
 //go:norace
 func (s *Sim) unregister(t *Task) {
 	s.mu.Lock()
-	for i := range s.byGoid {
+	for i := 0; i < s.ngoid; i++ {
 		if s.byGoid[i].t == t {
-			s.byGoid = append(s.byGoid[:i], s.byGoid[i+1:]...)
+			s.byGoid[i].goid = 0
 			break
 		}
 	}
@@ -243,6 +282,12 @@ func gate(site string, kind int32) {
 		return
 	}
 	t.park(site, kind)
+	// wake the scheduler if it is letting simulated time pass: the clock must not run past the moment a
+	// timer-woken task becomes runnable
+	select {
+	case s.kick <- struct{}{}:
+	default:
+	}
 	<-t.wake
 	raceEnable()
 }
@@ -269,11 +314,29 @@ func Go(site string, fn func()) {
 	go s.taskMain(t, fn)
 }
 
+// GoDetached starts fn as a task that is not a child of the caller (harness peers started from inside
+// a hook that runs on a goroutine of the program under test).
+func GoDetached(site string, fn func()) {
+	s := cur.Load()
+	if s == nil {
+		go fn()
+		return
+	}
+	raceDisable()
+	t := s.newTask(nil, site)
+	raceEnable()
+	go s.taskMain(t, fn)
+}
+
 func (s *Sim) taskMain(t *Task, fn func()) {
 	raceDisable()
 	s.register(t)
 	if !s.isDraining() {
 		t.park("entry:"+t.site, 1)
+		select {
+		case s.kick <- struct{}{}:
+		default:
+		}
 		<-t.wake
 	}
 	raceEnable()
@@ -290,6 +353,11 @@ func (s *Sim) finish(t *Task) {
 	raceDisable()
 	s.unregister(t)
 	raceEnable()
+	// visible to the race detector on purpose: what a finished task wrote happens-before whatever the
+	// caller of Run reads after the run
+	s.exitMu.Lock()
+	s.exits++
+	s.exitMu.Unlock()
 }
 
 //go:norace
@@ -372,7 +440,8 @@ func Unsupported(site string) {
 //go:norace
 func (s *Sim) collect() (normal, idle []*Task, alive int) {
 	s.mu.Lock()
-	for _, t := range s.tasks {
+	for i := 0; i < s.ntasks; i++ {
+		t := s.tasks[i]
 		if t.done {
 			continue
 		}
@@ -445,7 +514,11 @@ func (s *Sim) release(t *Task) {
 		if len(s.trace) >= s.cfg.TraceLen {
 			s.trace = s.trace[1:]
 		}
-		s.trace = append(s.trace, t.ID+"@"+t.site)
+		if s.cfg.TraceTime {
+			s.trace = append(s.trace, itoa(int(time.Since(s.start)/time.Microsecond))+"us "+t.ID+"@"+t.site)
+		} else {
+			s.trace = append(s.trace, t.ID+"@"+t.site)
+		}
 	}
 	s.last = t
 	t.state = 0
@@ -488,11 +561,12 @@ func (s *Sim) nextQuantum() time.Duration {
 func (s *Sim) describeAlive() string {
 	var b strings.Builder
 	s.mu.Lock()
-	for _, t := range s.tasks {
+	for i := 0; i < s.ntasks; i++ {
+		t := s.tasks[i]
 		if t.done {
 			continue
 		}
-		fmt.Fprintf(&b, "%s[state=%d at=%s prev=%s] ", t.ID, t.state, t.site, t.lastSite)
+		b.WriteString(t.ID + "[state=" + itoa(int(t.state)) + " at=" + t.site + " prev=" + t.lastSite + "] ")
 	}
 	s.mu.Unlock()
 	return b.String()
@@ -501,7 +575,8 @@ func (s *Sim) describeAlive() string {
 //go:norace
 func (s *Sim) leftover() (ids []string, gates []uint64) {
 	s.mu.Lock()
-	for _, t := range s.tasks {
+	for i := 0; i < s.ntasks; i++ {
+		t := s.tasks[i]
 		if !t.done {
 			ids = append(ids, t.ID+"@"+t.site)
 			gates = append(gates, t.gates)
@@ -530,9 +605,11 @@ func Stop() {
 
 func (s *Sim) loop(root func()) {
 	raceDisable()
-	defer raceEnable()
 	rt := s.newTask(nil, "root")
-	go s.taskMain(rt, root)
+	raceEnable()
+	go s.taskMain(rt, root) // visible to the race detector: what the caller prepared happens-before the run
+	raceDisable()
+	defer raceEnable()
 	for {
 		synctest.Wait()
 		if s.stopped {
@@ -554,7 +631,25 @@ func (s *Sim) loop(root func()) {
 				s.stuckMsg = "simulated-time backstop reached: " + s.describeAlive()
 				break
 			}
-			time.Sleep(s.nextQuantum())
+			// nothing is runnable: let simulated time pass until a timer-woken task parks at a gate (kick)
+			// or the idle quantum ends; sometimes stall on purpose so that several timers expire together
+			select {
+			case <-s.kick:
+			default:
+			}
+			q := s.nextQuantum()
+			raceEnable() // the time package consults once-initialised settings: keep that synchronisation visible
+			tm := time.NewTimer(q)
+			raceDisable()
+			select {
+			case <-s.kick:
+				tm.Stop()
+				if s.cfg.StallP > 0 && s.rngTime.Float() < s.cfg.StallP {
+					s.stalls++
+					time.Sleep(time.Duration(1+s.rngTime.Intn(int(s.cfg.StallMax/time.Microsecond))) * time.Microsecond)
+				}
+			case <-tm.C:
+			}
 			continue
 		}
 		if s.steps > s.cfg.MaxSteps {
@@ -577,9 +672,9 @@ func (s *Sim) result() Result {
 	raceDisable()
 	defer raceEnable()
 	r := Result{Steps: s.steps, SimTime: time.Since(s.start), SchedHash: s.hash, Choices: s.choices,
-		MaxParked: s.maxPark, Stuck: s.stuck, StuckInfo: s.stuckMsg, Trace: append([]string(nil), s.trace...)}
+		MaxParked: s.maxPark, Stalls: s.stalls, Stuck: s.stuck, StuckInfo: s.stuckMsg, Trace: append([]string(nil), s.trace...)}
 	s.mu.Lock()
-	r.Tasks = len(s.tasks)
+	r.Tasks = s.ntasks
 	r.Panics = append(r.Panics, s.panics...)
 	s.mu.Unlock()
 	r.Leftover, _ = s.leftover()
@@ -596,15 +691,29 @@ func Run(t *testing.T, cfg Config, root func()) (res Result) {
 	if cfg.MaxSimTime == 0 {
 		cfg.MaxSimTime = 10 * time.Minute
 	}
-	defer func() {
-		cur.Store(nil)
-		if r := recover(); r != nil {
-			// synctest panics when blocked goroutines remain after the bubble's root returned
-			res.BubbleError = fmt.Sprint(r)
-		}
+	// synctest.Test calls t.FailNow (runtime.Goexit) when the race detector reported something during
+	// the bubble; run it on a helper goroutine so that the worker survives and handles the report itself.
+	finished := make(chan struct{})
+	go func() {
+		defer close(finished)
+		defer func() {
+			cur.Store(nil)
+			if r := recover(); r != nil {
+				// synctest panics when blocked goroutines remain after the bubble's root returned
+				res.BubbleError = fmt.Sprint(r)
+			}
+		}()
+		runBubble(t, cfg, root, &res)
 	}()
+	<-finished
+	return res
+}
+
+func runBubble(t *testing.T, cfg Config, root func(), resp *Result) {
+	var res Result
+	defer func() { *resp = res }()
 	synctest.Test(t, func(t *testing.T) {
-		s := &Sim{cfg: cfg, start: time.Now()}
+		s := &Sim{cfg: cfg, start: time.Now(), kick: make(chan struct{}, 1)}
 		s.rngSched = NewRng(cfg.Seed, "sched")
 		s.rngTime = NewRng(cfg.Seed, "time")
 		s.rngMap = NewRng(cfg.Seed, "maporder")
@@ -614,6 +723,9 @@ func Run(t *testing.T, cfg Config, root func()) (res Result) {
 		}
 		cur.Store(s)
 		s.loop(root)
+		s.exitMu.Lock()
+		_ = s.exits
+		s.exitMu.Unlock()
 		res = s.result()
 		if len(res.Leftover) > 0 {
 			// are the leftovers still moving (timer loops)? then the bubble would never end
@@ -633,5 +745,26 @@ func Run(t *testing.T, cfg Config, root func()) (res Result) {
 			}
 		}
 	})
-	return res
+}
+
+// AliveUnder returns the tasks whose id starts with prefix+"." and that have not finished.
+//
+//go:norace
+func AliveUnder(prefix string) []string {
+	s := cur.Load()
+	if s == nil {
+		return nil
+	}
+	var out []string
+	raceDisable()
+	defer raceEnable()
+	s.mu.Lock()
+	for i := 0; i < s.ntasks; i++ {
+		t := s.tasks[i]
+		if !t.done && strings.HasPrefix(t.ID, prefix+".") {
+			out = append(out, t.ID+"@"+t.site)
+		}
+	}
+	s.mu.Unlock()
+	return out
 }
